@@ -48,6 +48,8 @@ CANON_STR = ['/etc/a', '/etc/b', '/etc/a/b', '@{bin}/a', '@{bin}/ab', '@{lib}/x'
              '/tmp/x', '@{tmp}/y', '/dev/shm/z', '/{a,b}', '/a*', '/a**', 'session', 'system', ':1.2',
              'abstractions/base', 'abstractions/base', 'abstractions/bas', 'abstractions/base-x',
              '9', '10', '1024', '01024', '1min', '5m', '100', '99', '/dev/shm/a', '/dev/shm/', '/dev/shm', '/dev/a']
+# one string per punctuation character of the sort alphabet (a character that loses its weight makes two of these compare equal)
+PUNCT_STR = ['/p' + c + 'q' for c in '!"#$%&\'*(){}[]@+,-./:;<=>?\\^_`|~']
 NUMS = ['9', '10', '1024', '01024', '1min', '5m', '100', '99', '2', '1h', 'infinity']
 ODD_STR = ['/Foo', '/foo', '/ETC/a', '@{HOME}/.x', '@{PROC}/1', '/a b', '/a\tb', '/a b c', '@{HOME}/X', '"/q r"',
            'Org.X', 'org.X']
@@ -80,6 +82,8 @@ class Gen:
             return ''
         if self.harvested and r.random() < 0.12:
             return r.choice(self.harvested)
+        if r.random() < 0.06:
+            return r.choice(PUNCT_STR)
         pool = ODD_STR if (odd and r.random() < 0.4) else CANON_STR
         return r.choice(pool)
 
